@@ -2,7 +2,7 @@
    fits x says x is representable (an int64). Z.quot / Z.rem truncate toward zero. The f128 methods are the same formulas over the
    Int128 model of C01 (Model.v); their theorems (second half of this file) rest on the C01 theorems for Int128 Add/Sub/Mul/Div. *)
 From Coq Require Import ZArith List Bool.
-From Verif Require Import common.Word64 C01.Model C03.Model C03.Proofs C03.Proofs128 C03.Proofs128b.
+From Verif Require Import common.Word64 C01.Model C03.Model C03.Proofs C03.Proofs128 C03.Proofs128b C03.ProofsFrac.
 Open Scope Z_scope.
 
 Theorem C03_add_sub_exact : forall a b, (fits (a + b) -> add a b = a + b) /\ (fits (a - b) -> sub a b = a - b).
@@ -126,6 +126,28 @@ Theorem C03_f128_as_from_roundtrip : forall M, 10 <= M <= 10000000000000000 -> f
 Proof. exact as128_from128_roundtrip. Qed.
 Print Assumptions C03_f128_as_from_roundtrip.
 Example C03_ex_f128_from_as : as_int128 1000 64 false (from_int128 1000 true 18446744073709551615) = 18446744073709551615 /\ as_int128 1000 8 true (from_int128 1000 false (-128)) = -128.
+Proof. vm_compute. split; reflexivity. Qed.
+(* fraction.go (ProofsFrac.v): Fraction{n, d}. Normalize makes a zero denominator 0/1 and moves a negative denominator's sign to the
+   numerator; Value is n/d truncated toward zero to D places, and 0 for a zero denominator - when the intermediate values are
+   representable. (When d * From(-1) wraps to zero - d = MinInt64 - the f64 Value divides by zero and Go panics: frac_value = None;
+   the model keeps that case, the theorem excludes it by its hypotheses.) *)
+Theorem C03_f64_fraction_value : forall M, 10 <= M <= 10000000000000000 -> forall n d, fits n -> fits d ->
+  (d = 0 -> frac_norm M n d = (0, M) /\ frac_value M n d = Some 0) /\
+  (0 < d -> frac_norm M n d = (n, d) /\ (fits (n * M) -> fits (Z.quot (n * M) d) -> frac_value M n d = Some (Z.quot (n * M) d))) /\
+  (d < 0 -> fits (n * M) -> fits (- (n * M)) -> fits (- (d * M)) -> fits (- n) -> fits (- d) ->
+     frac_norm M n d = (- n, - d) /\ (fits (Z.quot (n * M) d) -> frac_value M n d = Some (Z.quot (n * M) d))).
+Proof. exact frac64_spec. Qed.
+Print Assumptions C03_f64_fraction_value.
+Theorem C03_f128_fraction_value : forall M, 10 <= M <= 10000000000000000 -> forall n d, wf n -> wf d ->
+  (sval d = 0 -> exists q, frac_value128 M n d = Ok q /\ sval q = 0) /\
+  (0 < sval d -> frac_norm128 M n d = (n, d) /\
+     (fits128 (sval n * M) -> fits128 (Z.quot (sval n * M) (sval d)) -> exists q, frac_value128 M n d = Ok q /\ wf q /\ sval q = Z.quot (sval n * M) (sval d))) /\
+  (sval d < 0 -> fits128 (sval n * M) -> fits128 (- (sval n * M)) -> fits128 (- (sval d * M)) -> fits128 (- sval n) -> fits128 (- sval d) ->
+     sval (fst (frac_norm128 M n d)) = - sval n /\ sval (snd (frac_norm128 M n d)) = - sval d /\
+     (fits128 (Z.quot (sval n * M) (sval d)) -> exists q, frac_value128 M n d = Ok q /\ wf q /\ sval q = Z.quot (sval n * M) (sval d))).
+Proof. exact frac128_spec. Qed.
+Print Assumptions C03_f128_fraction_value.
+Example C03_ex_fraction : frac_value 100 700 (-300) = Some (-233) /\ frac_value 10 5 (-9223372036854775808) = None.
 Proof. vm_compute. split; reflexivity. Qed.
 (* non-vacuity: a 39-digit f128 value meets the hypotheses (12345678901234567890123456789012.345678 * 2 in D6) *)
 Example C03_ex_f128_mul : sval (mul128 1000000 (mk 669260594276 5027927973729429070) (From64 2000000)) = 2 * sval (mk 669260594276 5027927973729429070).
